@@ -25,16 +25,19 @@ CHECKS = {
             'Generated source/target tables x key shapes x modes x 12 aggregates x source_delete x wildcard '
             'x pre-existing target fields are run through the real join (incl. >10240 distinct keys to force '
             'the on-disk index) and compared row by row with an independent reference join.',
-            'Trusted: the reference join and aggregate definitions (self-checked); string sum accepted in '
-            'either concatenation order; order of full-outer tail / deduplication output not judged.', '3/C11'),
+            'Trusted: the reference join and aggregate definitions (self-checked); string sum = concatenation in '
+            'source order; order of full-outer tail / deduplication output not judged. Also: format-spec keys, odd key '
+            'field names, mapping entries sharing one spec object, second use of the same argument objects, a later '
+            'step reading the kept source only partially.', '3/C11'),
     'C12': ('pipeline-lab', 'exploration',
             'runtime monitor: stable sorted() on exact typed keys (Decimal / code points) + permutation check '
             'by row id + batch-size/cache-regime differential',
             'Generated tables per named key class x key form x reverse x batch size x sizes below and above '
             'the 10240-entry cache are sorted by the real sort_rows and compared with a stable reference '
             'sort; every row carries an id so loss/duplication is visible.',
-            'Trusted: Python sorted() on exact keys. Known finding (float64 key collapse for >2^53 / '
-            'high-precision keys) is recorded by mechanism in known_findings.json.', '3/C12'),
+            'Trusted: Python sorted() on exact keys; a key over several fields compares field by field. Known '
+            'findings (float64 key collapse for >2^53 / high-precision keys; OverflowError for ints beyond the '
+            'float64 range) are recorded by mechanism in known_findings.json.', '3/C12'),
     'C14': ('pipeline-lab', 'exploration',
             'runtime monitor: per-cell oracle = fresh tableschema Field.cast_value; expected rows / handler '
             'call log / raised error derived per policy',
@@ -48,16 +51,16 @@ CHECKS = {
             'output (schema order, row keys, values)',
             'Generated tables with regex-metacharacter/prefix field names x pattern classes x every computed '
             'operation x selectors; schema and rows of every resource are compared with independent models.',
-            'Trusted: the reference models (self-checked against PROCESSORS.md examples); undefined '
-            'operations over zero non-null values accept any outcome.', '3/C15'),
+            'Trusted: the reference models (self-checked against PROCESSORS.md examples); avg/min/max/multiply '
+            'over zero non-null values give null.', '3/C15'),
     'C17': ('pipeline-lab', 'exploration',
             'runtime monitor: reference filter / first-per-key dedup / row-major unpivot expansion with a '
             'row-id and cell ledger',
             'Generated tables x callable/equals/not_equals conditions x composite keys with nulls x unpivot '
             'specs (literal/regex/back-reference/constant keys) compared with independent models; dedup is '
             'also applied twice (idempotence).',
-            'Trusted: the reference models; unpivot patterns that can match the empty string are not '
-            'generated.', '3/C17'),
+            'Trusted: the reference models; unpivot keys are derived from the full match that selected the field '
+            '(alternation / lazy / empty-match patterns included); an emitted primaryKey must stay unique.', '3/C17'),
     'C16': ('pipeline-lab', 'exploration',
             'runtime monitor: row-id conservation ledger + reference placement models of concatenate / '
             'duplicate / delete_resource / appended sources / rename; aliasing family (in-place mutators after '
@@ -74,8 +77,9 @@ CHECKS = {
             'add_filehash_to_path x temporal_format_property x non-alphabetical field orders are dumped by the '
             'real dumpers; both the real load() and an independent decoder must give back the typed values '
             'that entered the dumper.',
-            'Trusted: csv/json stdlib + tableschema cast as the independent decoder. Two recorded known '
-            'findings (empty string == null after a dump; CRLF in a cell read back as LF by the loader).',
+            'Trusted: csv/json stdlib + tableschema cast as the independent decoder. Recorded known findings '
+            '(empty string == null after a dump; CRLF in a cell read back as LF by the loader; blank-edged '
+            'field names stripped by the reader underneath load()).',
             '3/C03'),
     'C07': ('io-lab', 'exploration',
             'runtime monitor: run/delete/run histories with side-effect counters in upstream steps; results of '
